@@ -78,3 +78,517 @@ Proof.
     destruct (N.eq_dec a (d_val d)) as [<-|Hne]; [rewrite getv_setv_same; discriminate|rewrite getv_setv_other by auto; exact H10].
   - intros b y Hy. destruct (Gv b y Hy) as [[-> ->]|[Hne Hb]]; [rewrite Es; apply (H11 a v Hv)|apply (H11 b y Hb)].
 Qed.
+
+(* ------------------------------------------------------------------ the renewal loop *)
+
+Record LoopInv (acc : renewal) (s : st) (la lq : list N) : Prop := mkLoop {
+  li_wf : WF s la lq; li_a : InvA s; li_2 : Inv2' s;
+  li_lv : g_lv s + r_inc_v acc = sumf v_locked (vals s) + sumf a_lv (aggs s) + r_dec_v acc;
+  li_q : g_q s = sumf v_queued (vals s) + sumf a_pv (aggs s) + r_qdec acc;
+  li_cd : g_cd s = sumf v_cooldown (vals s);
+  li_wd : g_wd s + sumf a_lv (aggs s) + sumf a_pv (aggs s) + r_dec_v acc = sumf v_withdrawable (vals s) + sumf d_stake (dels s);
+  li_eff : eff s = (g_lv s + g_q s + g_wd s + g_cd s) * e18;
+  li_bal : eff s <= bal s;
+  li_ctr : forall id d, get (dels s) id = Some d -> id <= del_ctr s;
+  li_lw : g_lw s + r_inc_w acc = sumf v_weight (vals s) + r_dec_w acc;
+  li_iq : r_inc_v acc = r_qdec acc }.
+
+Lemma renewal_add_ok r o r' : renewal_add r o = Ok r' ->
+  r_inc_v r' = r_inc_v r + r_inc_v o /\ r_inc_w r' = r_inc_w r + r_inc_w o /\ r_dec_v r' = r_dec_v r + r_dec_v o /\
+  r_dec_w r' = r_dec_w r + r_dec_w o /\ r_qdec r' = r_qdec r + r_qdec o.
+Proof.
+  unfold renewal_add. intros H. bstep H i Hi. destruct i as [iv iw]. bstep H d Hd. destruct d as [dv dw]. bstep H q Hq.
+  inversion H; subst; cbn. apply ws_add_ok in Hi, Hd. cbn in Hi, Hd. gfacts. intuition.
+Qed.
+
+Lemma InvA_frame2 s s' :
+  InvA s -> links_status_kept s s' ->
+  (forall a, (forall v, getv s a = Some v -> v_status v <> StatusActive) -> a_lv (get_agg s' a) = a_lv (get_agg s a)) -> InvA s'.
+Proof.
+  intros H [K1 K2] Ea a Hna.
+  assert (Hs : forall v, getv s a = Some v -> v_status v <> StatusActive).
+  { intros v Hv. destruct (K1 a v Hv) as [v' [Hv' [_ [_ Es]]]]. rewrite <- Es. apply (Hna v' Hv'). }
+  rewrite (Ea a Hs). apply H; auto.
+Qed.
+
+Lemma rl_remove_fixw a s : fixw (rl_remove a s) = rl_remove a (fixw s).
+Proof.
+  unfold rl_remove, rl_contains. cbn [rnext rprev rh rt fixw w_glob].
+  repeat match goal with |- context [if ?c then _ else _] => destruct c end; reflexivity.
+Qed.
+
+Lemma Inv2'_rl_remove a s : Inv2' s -> Inv2' (rl_remove a s).
+Proof. unfold Inv2'. intros H. rewrite rl_remove_fixw. apply Inv2_rl_remove; auto. Qed.
+
+Lemma renew_step acc s la lq a v s1 ar dw acc1 s2 vr acc2 :
+  LoopInv acc s la lq -> getv s a = Some v -> v_status v = StatusActive ->
+  aggs_renew a s = Ok (s1, ar, dw) -> renewal_add acc ar = Ok acc1 ->
+  svc_renew a dw s1 = Ok (s2, vr) -> renewal_add acc1 vr = Ok acc2 ->
+  LoopInv acc2 (rl_remove a s2) la lq /\
+  (forall b, b <> a -> getv (rl_remove a s2) b = getv s b) /\
+  (exists v2, getv (rl_remove a s2) a = Some v2 /\ v_status v2 = StatusActive /\ v_exit v2 = v_exit v).
+Proof.
+  intros [Hwf HA H2 L1 L2 L3 L4 L5 L6 L7 L8 L9] Hv Hact Hag Hacc1 Hsv Hacc2.
+  (* aggregation *)
+  unfold aggs_renew, agg_renew in Hag. bstep Hag r0 Hr0. destruct r0 as [a' ar0].
+  bstep Hr0 l1 Hl1. destruct l1 as [lv lw]. bstep Hr0 l2 Hl2. destruct l2 as [lv2 lw2].
+  inversion Hr0; subst a' ar0; clear Hr0. inversion Hag; subst s1 ar dw; clear Hag.
+  apply ws_add_ok in Hl1. apply ws_sub_ok in Hl2. cbn [fst snd] in Hl1, Hl2.
+  destruct Hl1 as [Elv Elw]. destruct Hl2 as [Elv2 [Elw2 [Lev Lew]]].
+  set (ag := get_agg s a) in *. set (a' := mkA lv2 lw2 0 0 0 0) in *.
+  (* validation *)
+  unfold svc_renew in Hsv. bstep Hsv v0 Hv0. unfold get_existing in Hv0. apply of_opt_ok in Hv0.
+  change (getv (set_agg a a' s) a) with (getv s a) in Hv0. assert (v0 = v) by congruence. subst v0.
+  bstep Hsv r1 Hr1. destruct r1 as [v1 vr1]. inversion Hsv; subst s2 vr; clear Hsv.
+  unfold v_renew in Hr1. bstep Hr1 l1 Hl1. apply of_opt_ok, safe_sub_some in Hl1. destruct Hl1 as [El1 Lpu].
+  inversion Hr1; subst v1 vr1; clear Hr1. cbn [a_lw a'] in *.
+  set (prevw := calc_weight (v_locked v) (v_multiplier v)) in *.
+  set (mult' := if 0 <? lw2 then MultiplierWithDelegations else Multiplier) in *.
+  set (afterw := calc_weight l1 mult') in *.
+  set (v1 := set_amounts l1 0 0 (v_cooldown v) (v_withdrawable v + v_punlock v) (afterw + lw2) v) in *.
+  destruct (renewal_add_ok _ _ _ Hacc1) as [A1 [A2 [A3 [A4 A5]]]]. cbn [r_inc_v r_inc_w r_dec_v r_dec_w r_qdec] in A1, A2, A3, A4, A5.
+  destruct (renewal_add_ok _ _ _ Hacc2) as [B1 [B2 [B3 [B4 B5]]]]. cbn [r_inc_v r_inc_w r_dec_v r_dec_w r_qdec] in B1, B2, B3, B4, B5.
+  (* the old weight *)
+  destruct (j_w1 _ H2 a v Hv Hact) as [Wold Pold]. change (get_agg (fixw s) a) with ag in Wold. fold prevw in Wold.
+  set (s2 := setv a v1 (set_agg a a' s)) in *.
+  assert (Es2 : s2 = set_agg a a' (setv a v1 s)) by reflexivity.
+  assert (K : links_status_kept s s2).
+  { apply (kept_trans _ (setv a v1 s)); [apply kept_setv with (v := v); auto|apply kept_same_vals; reflexivity]. }
+  (* sums *)
+  pose proof (sum_setv v_locked a v v1 s Hv) as S1. pose proof (sum_setv v_queued a v v1 s Hv) as S2.
+  pose proof (sum_setv v_cooldown a v v1 s Hv) as S3. pose proof (sum_setv v_withdrawable a v v1 s Hv) as S4.
+  pose proof (sum_setv v_weight a v v1 s Hv) as S5.
+  pose proof (sum_set_agg a_lv a a' s eq_refl) as G1. pose proof (sum_set_agg a_pv a a' s eq_refl) as G2.
+  fold ag in G1, G2. cbn [v1 a' v_locked v_queued v_cooldown v_withdrawable v_weight set_amounts a_lv a_pv vals aggs setv set_agg w_vals w_aggs] in S1, S2, S3, S4, S5, G1, G2.
+  assert (Hmult : v_weight v1 = calc_weight (v_locked v1) (v_multiplier v1) + lw2 /\ v_punlock v1 + 1 <= v_locked v1).
+  { cbn [v1 v_weight v_locked v_punlock set_amounts]. split; [|lia]. unfold v_multiplier. cbn [v1 v_weight v_locked set_amounts].
+    unfold afterw, mult', Multiplier, MultiplierWithDelegations. destruct (0 <? lw2) eqn:E.
+    - apply N.ltb_lt in E. rewrite calc_200.
+      destruct (2 * l1 + lw2 =? l1) eqn:E2; [apply N.eqb_eq in E2; lia|]. rewrite calc_200. reflexivity.
+    - apply N.ltb_ge in E. assert (Z0 : lw2 = 0) by lia. rewrite Z0. rewrite (calc_100 l1), !N.add_0_r, N.eqb_refl, calc_100. reflexivity. }
+  destruct Hmult as [Hm1 Hm2].
+  assert (R : ren_only s2 (rl_remove a s2)) by apply rl_remove_only.
+  destruct (same2_ren_only_except _ _ R) as [E1 [E2 [E3 [E4 [E5 E6]]]]].
+  assert (Eglob : g_lv (rl_remove a s2) = g_lv s /\ g_q (rl_remove a s2) = g_q s /\ g_cd (rl_remove a s2) = g_cd s /\
+                  g_wd (rl_remove a s2) = g_wd s /\ eff (rl_remove a s2) = eff s /\ bal (rl_remove a s2) = bal s /\
+                  del_ctr (rl_remove a s2) = del_ctr s /\ act (rl_remove a s2) = act s /\ que (rl_remove a s2) = que s).
+  { rewrite R. repeat split. }
+  destruct Eglob as [F1 [F2 [F3 [F4 [F5 [F6 [F7 [F8 F9]]]]]]]].
+  split; [|split].
+  - constructor.
+    + apply (WF_frame s2); auto; [|apply kept_same_vals; auto]. apply (WF_frame s); auto.
+    + apply (InvA_frame2 s).
+      * exact HA.
+      * apply (kept_trans _ s2); auto. apply kept_same_vals; auto.
+      * intros b Hb. unfold get_agg. rewrite E2. change (aggs s2) with (upd (aggs s) a a'). rewrite get_upd.
+        destruct (a =? b) eqn:E; auto. apply N.eqb_eq in E. subst b. exfalso. apply (Hb v Hv). exact Hact.
+    + apply Inv2'_rl_remove. rewrite Es2. apply (Inv2'_active_upd s a v v1 a'); auto.
+    + rewrite F1, E1, E2. cbn [vals aggs s2 setv set_agg w_vals w_aggs]. lia.
+    + rewrite F2, E1, E2. cbn [vals aggs s2 setv set_agg w_vals w_aggs]. lia.
+    + rewrite F3, E1. cbn [vals s2 setv set_agg w_vals w_aggs]. lia.
+    + rewrite F4, E1, E2, E3. cbn [vals aggs dels s2 setv set_agg w_vals w_aggs]. lia.
+    + rewrite F5, F1, F2, F3, F4. exact L5.
+    + rewrite F5, F6. exact L6.
+    + intros id d. rewrite E3, F7. apply L7.
+    + rewrite E6, E1. cbn [vals s2 setv set_agg w_vals w_aggs g_lw].
+      pose proof (sumf_get_le v_weight (vals s) a v Hv) as Wle.
+      unfold prevw in *. destruct (calc_weight (v_locked v) (v_multiplier v) <? afterw) eqn:Ecmp;
+        [apply N.ltb_lt in Ecmp|apply N.ltb_ge in Ecmp]; lia.
+    + lia.
+  - intros b Hne. unfold getv. rewrite E1. change (get (vals s2) b) with (getv (setv a v1 (set_agg a a' s)) b).
+    rewrite getv_setv_other by auto. reflexivity.
+  - exists v1. unfold getv. rewrite E1. change (get (vals s2) a) with (getv (setv a v1 (set_agg a a' s)) a).
+    rewrite getv_setv_same. auto.
+Qed.
+
+Definition is_active (s : st) (a : N) : Prop := exists v, getv s a = Some v /\ v_status v = StatusActive.
+
+Lemma apply_renewals_ok l : forall acc s la lq s' acc',
+  LoopInv acc s la lq -> (forall a, In a l -> is_active s a) ->
+  apply_renewals l acc s = Ok (s', acc') ->
+  LoopInv acc' s' la lq /\
+  (forall b, ~ In b l -> getv s' b = getv s b) /\
+  (forall b v, getv s b = Some v -> exists v', getv s' b = Some v' /\ v_status v' = v_status v /\ v_exit v' = v_exit v).
+Proof.
+  induction l as [|a t IH]; intros acc s la lq s' acc' HL Hact H.
+  - cbn in H. inversion H; subst. split; auto. split; auto. intros b v Hv. eauto.
+  - cbn [apply_renewals] in H. bstep H r1 Hr1. destruct r1 as [[s1 ar] dw]. bstep H acc1 Ha1.
+    bstep H r2 Hr2. destruct r2 as [s2 vr]. bstep H acc2 Ha2.
+    destruct (Hact a (or_introl eq_refl)) as [v [Hv Hs]].
+    destruct (renew_step acc s la lq a v s1 ar dw acc1 s2 vr acc2 HL Hv Hs Hr1 Ha1 Hr2 Ha2) as [HL2 [Hoth [v2 [Hv2 [Hs2 Hx2]]]]].
+    destruct (IH acc2 (rl_remove a s2) la lq s' acc' HL2) as [HL3 [Hfr Hst]]; auto.
+    + intros b Hb. destruct (N.eq_dec b a) as [->|Hne]; [exists v2; auto|].
+      destruct (Hact b (or_intror Hb)) as [vb [Hvb Hsb]]. exists vb. rewrite Hoth; auto.
+    + split; auto. split.
+      * intros b Hb. rewrite Hfr by (intros Hx; apply Hb; right; auto). apply Hoth. intros ->. apply Hb. left; auto.
+      * intros b vb Hvb. destruct (N.eq_dec b a) as [->|Hne].
+        -- assert (vb = v) by congruence. subst vb. destruct (Hst a v2 Hv2) as [v3 [Hv3 [E1 E2]]]. exists v3. repeat split; congruence.
+        -- rewrite <- (Hoth b Hne) in Hvb. apply (Hst b vb Hvb).
+Qed.
+
+(* closing the loop: the accumulated renewal is applied to the global counters *)
+Lemma apply_renewal_closes acc s la lq s' :
+  LoopInv acc s la lq -> apply_renewal acc s = Ok s' ->
+  WF s' la lq /\ Inv1 s' /\ InvA s' /\ Inv2 s' /\ (forall b, getv s' b = getv s b) /\ exits s' = exits s /\ blk s' = blk s.
+Proof.
+  intros [Hwf HA H2 L1 L2 L3 L4 L5 L6 L7 L8 L9] H. unfold apply_renewal in H.
+  bstep H l1 Hl1. bstep H l2 Hl2. destruct l2 as [lv lw]. bstep H s1 Hs1.
+  apply ws_add_ok in Hl1. apply ws_sub_ok in Hl2. cbn [fst snd] in Hl1, Hl2. destruct Hl1 as [P1 P2]. destruct Hl2 as [Q1 [Q2 [Q3 Q4]]].
+  unfold remove_queued in Hs1. bstep Hs1 q Hq. inversion Hs1; subst s1; clear Hs1.
+  unfold add_withdrawable in H. bstep H w Hw. inversion H; subst s'; clear H. gfacts. cbn in *.
+  split; [apply (WF_same_vals s); auto|]. split; [|split; [|split; [|auto]]].
+  - constructor; cbn; auto; try lia. rewrite L5. f_equal. lia.
+  - apply (InvA_frame s); auto. apply kept_same_vals; reflexivity.
+  - apply Inv2_split. split; [apply (Inv2'_ext s); auto|]. cbn. lia.
+Qed.
+
+(* ------------------------------------------------------------------ the scheduled exit *)
+
+Record Full (s : st) (la lq : list N) : Prop := mkFull {
+  f_wf : WF s la lq; f_1 : Inv1 s; f_a : InvA s; f_2 : Inv2 s }.
+
+Lemma cond_add_wd x s s' : (if 0 <? x then add_withdrawable x s else Ok s) = Ok s' ->
+  s' = w_glob (g_lv s) (g_lw s) (g_q s) (g_wd s + x) (g_cd s) s.
+Proof.
+  destruct (0 <? x) eqn:E.
+  - unfold add_withdrawable. intros H. bstep H y Hy. inversion H; subst. gfacts. subst. auto.
+  - intros H. inversion H; subst. apply N.ltb_ge in E. assert (x = 0) by lia. subst. rewrite N.add_0_r, w_glob_id. auto.
+Qed.
+Lemma cond_add_cd x s s' : (if 0 <? x then add_cooldown x s else Ok s) = Ok s' ->
+  s' = w_glob (g_lv s) (g_lw s) (g_q s) (g_wd s) (g_cd s + x) s.
+Proof.
+  destruct (0 <? x) eqn:E.
+  - unfold add_cooldown. intros H. bstep H y Hy. inversion H; subst. gfacts. subst. auto.
+  - intros H. inversion H; subst. apply N.ltb_ge in E. assert (x = 0) by lia. subst. rewrite N.add_0_r, w_glob_id. auto.
+Qed.
+
+Lemma exit_step s la lq a v eb s' :
+  Full s la lq -> getv s a = Some v -> v_status v = StatusActive -> v_exit v = Some eb -> eb <= blk s ->
+  (s2 <- (r <- svc_exit_validator a s;; let '(s2a, ve) := r in let '(s2b, ae) := aggs_exit a s2a in apply_exit ve ae s2b);; Ok s2) = Ok s' ->
+  exists l1 l2, la = l1 ++ a :: l2 /\ Full s' (l1 ++ l2) lq /\
+    (forall b x, b <> a -> getv s b = Some x -> exists x', getv s' b = Some x' /\ core x' = core x) /\
+    exits s' = exits s /\ blk s' = blk s /\ mbp s' = mbp s.
+Proof.
+  intros [Hwf Hi HA H2] Hv Hact Hex Heb H. pose proof Hi as [I1 I2 I3 I4 I5 I6 I7].
+  bstep H s2 H0. inversion H; subst s2; clear H. rename H0 into H.
+  bstep H r Hr. destruct r as [s2a ve]. unfold svc_exit_validator in Hr.
+  bstep Hr v0 Hv0. unfold get_existing in Hv0. apply of_opt_ok in Hv0. assert (v0 = v) by congruence. subst v0.
+  unfold v_exit_now in Hr. bstep Hr r1 Hrm. destruct r1 as [s1 e1]. inversion Hr; subst s2a ve; clear Hr.
+  set (v1 := set_status StatusExit (set_amounts 0 0 0 (v_locked v) (v_withdrawable v + v_queued v) 0 v)) in *.
+  assert (Hin : In a la) by (apply (wf_st _ _ _ Hwf a v Hv); auto).
+  destruct (WF_remove true s la lq a v1 s1 e1 v Hwf Hrm Hv Hin eq_refl eq_refl eq_refl)
+    as [l1 [l2 [El [Hwf1 [Hlo [Hga [Hce [Hco Hsum]]]]]]]].
+  destruct (ll_remove_wf true a v1 s s1 e1 la v Hrm (wf_a _ _ _ Hwf) Hin Hv eq_refl eq_refl)
+    as [_ [_ [_ [_ [_ [_ [_ [_ [Hco' _]]]]]]]]].
+  exists l1, l2. split; auto.
+  assert (Eg : forall (T : Type) (X : st -> T), X (w_vals (vals s1) (w_act (act s1) (w_que (que s1) s))) = X s1) by (intros; rewrite <- Hlo; auto).
+  set (sr := rl_remove a s1) in *.
+  assert (R : ren_only s1 sr) by apply rl_remove_only.
+  destruct (same2_ren_only_except _ _ R) as [E1 [E2 [E3 [E4 [E5 E6]]]]].
+  unfold aggs_exit in H. cbn zeta in H.
+  assert (Eag : get_agg sr a = get_agg s a).
+  { unfold get_agg. rewrite E2, <- (Eg _ aggs). reflexivity. }
+  rewrite Eag in H. set (ag := get_agg s a) in *.
+  set (sx := set_agg a agg0 sr) in *.
+  (* weights *)
+  destruct (j_w1 _ H2 a v Hv Hact) as [Wold Pold]. fold ag in Wold.
+  assert (Cold : v_cooldown v = 0) by (apply (j_cd _ H2 a v Hv); rewrite Hact; discriminate).
+  unfold apply_exit in H. cbn [e_v e_w e_qdec] in H.
+  bstep H tot Htot. apply ws_add_ok in Htot. cbn [fst snd] in Htot. destruct tot as [tv tw]. cbn [fst snd] in *. destruct Htot as [Etv Etw].
+  bstep H sa Ha. bstep H sb Hb. bstep H sc Hc.
+  assert (Htv : (0 <? tv) = true) by (apply N.ltb_lt; lia). rewrite Htv in Ha.
+  unfold remove_locked in Ha. bstep Ha lw Hlw. destruct lw as [nlv nlw]. inversion Ha; subst sa; clear Ha.
+  apply ws_sub_ok in Hlw. cbn [fst snd] in Hlw. destruct Hlw as [Enlv [Enlw [Llv Llw]]].
+  apply cond_remove_q in Hb as [-> Lq]. apply cond_add_cd in Hc as ->. apply cond_add_wd in H as ->.
+  (* projections of sx *)
+  assert (Px : vals sr = vals s1 /\ aggs sr = aggs s /\ dels sr = dels s /\ exits sr = exits s /\ blk sr = blk s /\
+               g_lv sr = g_lv s /\ g_lw sr = g_lw s /\ g_q sr = g_q s /\ g_wd sr = g_wd s /\ g_cd sr = g_cd s /\
+               eff sr = eff s /\ bal sr = bal s /\ del_ctr sr = del_ctr s /\ act sr = act s1 /\ que sr = que s1 /\ mbp sr = mbp s).
+  { rewrite R. cbn.
+    rewrite <- (Eg _ aggs), <- (Eg _ dels), <- (Eg _ exits), <- (Eg _ blk), <- (Eg _ g_lv), <- (Eg _ g_lw), <- (Eg _ g_q), <- (Eg _ g_wd),
+      <- (Eg _ g_cd), <- (Eg _ eff), <- (Eg _ bal), <- (Eg _ del_ctr), <- (Eg _ mbp). cbn. repeat split. }
+  destruct Px as [X1 [X2 [X3 [X4 [X5 [X6 [X7 [X8 [X9 [X10 [X11 [X12 [X13 [X14 [X15 X16]]]]]]]]]]]]]]].
+  set (s' := w_glob _ _ _ _ _ (w_glob _ _ _ _ _ (w_glob _ _ _ _ _ (w_glob _ _ _ _ _ sx)))) in *.
+  pose proof (Hsum v_locked core_fun_locked) as S1. pose proof (Hsum v_queued core_fun_queued) as S2.
+  pose proof (Hsum v_cooldown core_fun_cooldown) as S3. pose proof (Hsum v_withdrawable core_fun_withdrawable) as S4.
+  pose proof (Hsum v_weight core_fun_weight) as S5.
+  cbn [v1 v_locked v_queued v_cooldown v_withdrawable v_weight set_status set_amounts] in S1, S2, S3, S4, S5.
+  assert (A1 : sumf a_lv (upd (aggs s) a agg0) + a_lv ag = sumf a_lv (aggs s)).
+  { pose proof (sum_set_agg a_lv a agg0 s eq_refl) as A. cbn in A. fold ag in A. lia. }
+  assert (A2 : sumf a_pv (upd (aggs s) a agg0) + a_pv ag = sumf a_pv (aggs s)).
+  { pose proof (sum_set_agg a_pv a agg0 s eq_refl) as A. cbn in A. fold ag in A. lia. }
+  assert (Gv : forall b, getv s' b = getv s1 b) by (intros; unfold getv, s'; cbn; rewrite ?X1, ?E1; reflexivity).
+  assert (Crel : core_rel s s' a).
+  { intros b Hne. rewrite Gv. split; [apply (proj1 (Hco' b Hne))|intros y Hy; apply (Hco b y Hne Hy)]. }
+  destruct (core_eq _ _ Hce) as [Cs [Cc [Cw [Cl [Cp [Cq Cx]]]]]].
+  split; [|split; [|split; [|split]]].
+  - constructor.
+    + apply (WF_same_vals s1); auto; unfold s'; cbn; auto.
+    + unfold s'. constructor; cbn; rewrite ?X1, ?X2, ?X3, ?X6, ?X7, ?X8, ?X9, ?X10, ?X11, ?X12, ?X13 in *; cbn in *; try lia; auto.
+      rewrite I5. f_equal. lia.
+    + intros b Hb. unfold get_agg, s'. cbn. rewrite X2, get_upd. destruct (a =? b) eqn:E; [reflexivity|].
+      apply N.eqb_neq in E. apply HA. intros y Hy. destruct (Hco b y (fun e => E (eq_sym e)) Hy) as [y' [Hy' Ec]].
+      rewrite <- (core_status _ _ Ec). apply (Hb y'). rewrite Gv. exact Hy'.
+    + apply (Inv2_to_exit s s' a v e1); auto.
+      * rewrite Gv. exact Hga.
+      * unfold s'. cbn. rewrite X2. reflexivity.
+      * unfold s'. cbn. rewrite ?X7 in *. cbn in *. lia.
+      * unfold s'. cbn. rewrite X1. lia.
+      * intros b Hb Hg. destruct (N.eq_dec a 0); auto. destruct (j_exit _ H2 b a Hg n Hb) as [y [Hy [_ Hey]]].
+        assert (y = v) by congruence. subst y. rewrite Hex in Hey. inversion Hey. lia.
+      * destruct (j_ren _ H2) as [lr [RW A]].
+        assert (RW1 : RWF s1 lr).
+        { apply (RWF_ext s _ lr); auto; [rewrite <- (Eg _ rh)|rewrite <- (Eg _ rt)|rewrite <- (Eg _ rprev)|rewrite <- (Eg _ rnext)]; reflexivity. }
+        destruct (rl_remove_not_member s1 a lr RW1) as [lr' [RW' [Hn Hsub]]]. exists lr'. split.
+        -- apply (RWF_ext sr _ lr'); auto; unfold s', sx; reflexivity.
+        -- intros b Hb. split; [intros ->; contradiction|apply A; auto].
+  - intros b x Hne Hx. rewrite Gv. apply (Hco b x Hne Hx).
+  - unfold s'. cbn. rewrite X4. reflexivity.
+  - unfold s'. cbn. rewrite X5. reflexivity.
+  - unfold s'. cbn. rewrite X16. reflexivity.
+Qed.
+
+(* ------------------------------------------------------------------ evictions *)
+
+Definition evictable_now (s : st) (a : N) : Prop :=
+  exists v, getv s a = Some v /\ v_status v = StatusActive /\ v_exit v = None.
+
+Lemma apply_evictions_ok c b l : forall s la lq s',
+  (exists lq0, Full s la lq0 /\ lq0 = lq) -> NoDup l -> (forall a, In a l -> evictable_now s a) ->
+  apply_evictions c b l s = Ok s' ->
+  (exists lq', Full s' la lq') /\ blk s' = blk s /\ mbp s' = mbp s /\
+  (forall x y, getv s x = Some y -> exists y', getv s' x = Some y' /\ v_status y' = v_status y).
+Proof.
+  induction l as [|a t IH]; intros s la lq s' [lq0 [HF ->]] Hnd Hev H.
+  - cbn in H. inversion H; subst. split; [exists lq; auto|]. split; auto. split; auto. intros x y Hy. eauto.
+  - cbn [apply_evictions] in H. bstep H s1 Hs1.
+    destruct (Hev a (or_introl eq_refl)) as [v [Hv [Hact Hex]]].
+    apply svc_signal_exit_shape2 in Hs1; [|discriminate]. destruct Hs1 as [v2 [eb [cur [Hv2 [Hfree E1]]]]].
+    assert (v2 = v) by congruence. subst v2.
+    destruct HF as [Hwf Hi HA H2].
+    destruct (signal_exit_shape_ok s s1 a v eb cur la lq Hv E1 Hwf Hi HA) as [lq1 [W1 [I1 [_ A1]]]].
+    assert (J1 : Inv2 s1) by (rewrite E1; apply Inv2_signal_exit; auto).
+    apply NoDup_cons_iff in Hnd as [Hna Hnd'].
+    assert (Gx : forall x, x <> a -> getv s1 x = getv s x).
+    { intros x Hne. rewrite E1. rewrite getv_setv_other by auto. reflexivity. }
+    destruct (IH s1 la lq1 s') as [F' [B' [M' St']]]; auto.
+    + exists lq1. split; auto. constructor; auto.
+    + intros x Hx. destruct (Hev x (or_intror Hx)) as [y [Hy [Hs He]]]. exists y. rewrite Gx; auto. intros ->. contradiction.
+    + split; auto. rewrite B', M', E1. cbn. split; auto. split; auto.
+      intros x y Hy. destruct (N.eq_dec x a) as [->|Hne].
+      * assert (y = v) by congruence. subst y.
+        destruct (St' a (set_completed cur (set_exit (Some eb) v))) as [y' [Hy' Es]]; [rewrite E1; apply getv_setv_same|].
+        exists y'. split; auto.
+      * rewrite <- (Gx x Hne) in Hy. apply (St' x y Hy).
+Qed.
+
+(* ------------------------------------------------------------------ activation *)
+
+Lemma Inv2_activate s s' h v e' x :
+  Inv2 s -> core_rel s s' h -> getv s h = Some v -> v_status v = StatusQueued -> getv s' h = Some e' ->
+  v_status e' = StatusActive -> v_exit e' = v_exit v -> v_cooldown e' = v_cooldown v ->
+  v_locked e' = v_queued v -> v_punlock e' = v_punlock v ->
+  aggs s' = upd (aggs s) h x ->
+  v_weight e' = calc_weight (v_locked e') (v_multiplier e') + a_lw x ->
+  dels s' = dels s -> exits s' = exits s -> blk s' = blk s ->
+  rh s' = rh s -> rt s' = rt s -> rprev s' = rprev s -> rnext s' = rnext s ->
+  g_lw s' = g_lw s + v_weight e' -> sumf v_weight (vals s') = sumf v_weight (vals s) + v_weight e' ->
+  Inv2 s'.
+Proof.
+  intros [H1 H2 H3 H4 H5 H6 H7 H8 H9 H10 H11] C Hv Hq He' Est Eex Ecd El Epu Eag Ew Ed Eexs Eb R1 R2 R3 R4 Eg Esum.
+  assert (Ga : forall b, get_agg s' b = if h =? b then x else get_agg s b).
+  { intros b. unfold get_agg. rewrite Eag, get_upd. destruct (h =? b); reflexivity. }
+  assert (Gx : forall b, get_exit s' b = get_exit s b) by (intros; unfold get_exit; rewrite Eexs; auto).
+  assert (Hnact : forall y, getv s h = Some y -> v_status y <> StatusActive) by (intros y Hy; assert (y = v) by congruence; subst; rewrite Hq; discriminate).
+  destruct (H8 h v Hv Hq) as [Q1 [Q2 [Q3 [Q4 Q5]]]].
+  constructor.
+  - intros b Hn. rewrite Ga. destruct (h =? b) eqn:E.
+    + apply N.eqb_eq in E. subst b. exfalso. apply (Hn e' He'). exact Est.
+    + apply N.eqb_neq in E. apply H1. intros y Hy. destruct (proj2 (C b (fun e => E (eq_sym e))) y Hy) as [y' [Hy' Ec]].
+      rewrite <- (core_status _ _ Ec). apply (Hn y' Hy').
+  - intros b y Hy Hs. destruct (N.eq_dec b h) as [->|Hne].
+    + assert (y = e') by congruence. subst y. rewrite Ecd. apply (H2 h v Hv). rewrite Hq. discriminate.
+    + destruct (core_rel_rev _ _ _ _ _ C Hne Hy) as [z [Hz Ec]]. cf Ec. rewrite Cc. apply (H2 b z Hz). congruence.
+  - destruct H3 as [lr [R A]]. exists lr. split; [apply (RWF_ext s _ lr); auto|]. intros b Hb. destruct (A b Hb) as [y [Hy Hs]].
+    assert (Hne : b <> h) by (intros ->; apply (Hnact y Hy Hs)).
+    destruct (proj2 (C b Hne) y Hy) as [y' [Hy' Ec]]. exists y'. split; auto. rewrite (core_status _ _ Ec). auto.
+  - intros b c Hg Hc Hb. rewrite Gx in Hg. rewrite Eb in Hb. destruct (H4 b c Hg Hc Hb) as [y [Hy [Hs Hey]]].
+    assert (Hne : c <> h) by (intros ->; apply (Hnact y Hy Hs)).
+    destruct (proj2 (C c Hne) y Hy) as [y' [Hy' Ec]]. exists y'. cf Ec. repeat split; congruence.
+  - lia.
+  - intros b y Hy Hs. rewrite Ga. destruct (N.eq_dec b h) as [->|Hne].
+    + assert (y = e') by congruence. subst y. rewrite N.eqb_refl. split; auto. lia.
+    + assert (E : (h =? b) = false) by (apply N.eqb_neq; auto). rewrite E.
+      destruct (core_rel_rev _ _ _ _ _ C Hne Hy) as [z [Hz Ec]]. cf Ec.
+      destruct (H6 b z Hz) as [W P]; [congruence|]. unfold v_multiplier in *. rewrite Cw, Cl, Cp. auto.
+  - intros b y Hy Hs. destruct (N.eq_dec b h) as [->|Hne]; [assert (y = e') by congruence; subst y; congruence|].
+    destruct (core_rel_rev _ _ _ _ _ C Hne Hy) as [z [Hz Ec]]. cf Ec. rewrite Cw. apply (H7 b z Hz). congruence.
+  - intros b y Hy Hs. destruct (N.eq_dec b h) as [->|Hne].
+    + assert (y = e') by congruence. subst y. rewrite Est in Hs. discriminate.
+    + destruct (core_rel_rev _ _ _ _ _ C Hne Hy) as [z [Hz Ec]]. cf Ec.
+      destruct (H8 b z Hz) as [A1 [A2 [A3 [A4 A5]]]]; [congruence|]. rewrite Ga, Ed.
+      assert (E : (h =? b) = false) by (apply N.eqb_neq; auto). rewrite E. rewrite Cl, Cq, Cp. tauto.
+  - intros b Hb. rewrite Ga. destruct (h =? b) eqn:E; [apply N.eqb_eq in E; subst b; congruence|]. apply N.eqb_neq in E. apply H9.
+    destruct (getv s b) as [y|] eqn:Ey; auto. destruct (proj2 (C b (fun e => E (eq_sym e))) y Ey) as [y' [Hy' _]]. congruence.
+  - intros id d Hin. rewrite Ed in Hin. specialize (H10 id d Hin). destruct (N.eq_dec (d_val d) h) as [->|Hne]; [congruence|].
+    destruct (getv s (d_val d)) as [y|] eqn:Ey; [|congruence]. destruct (proj2 (C _ Hne) y Ey) as [y' [Hy' _]]. congruence.
+  - intros b y Hy. destruct (N.eq_dec b h) as [->|Hne]; [assert (y = e') by congruence; subst; auto|].
+    destruct (core_rel_rev _ _ _ _ _ C Hne Hy) as [z [Hz Ec]]. rewrite (core_status _ _ Ec). eauto.
+Qed.
+
+Lemma seg_head s p h0 a t e : seg s p h0 (a :: t) e -> h0 = Some a.
+Proof. intros [E _]. exact E. Qed.
+
+Lemma activate_step b mx s la lq s' :
+  Full s la lq -> activate_next b mx s = Ok s' ->
+  exists h lq', Full s' (la ++ [h]) lq' /\ In h lq /\ ~ In h la /\ blk s' = blk s /\ mbp s' = mbp s /\
+    (forall x y, x <> h -> getv s x = Some y -> exists y', getv s' x = Some y' /\ core y' = core y).
+Proof.
+  intros [Hwf Hi HA H2] H. pose proof Hi as [I1 I2 I3 I4 I5 I6 I7]. unfold activate_next in H.
+  bstep H r Hr. destruct r as [[s1 h] e1]. unfold next_to_activate in Hr.
+  bstep Hr u1 G1. bstep Hr u2 G2. bstep Hr h0 Hh. bstep Hr e He. bstep Hr r1 Hrm. destruct r1 as [s1' e1'].
+  inversion Hr; subst s1' h0 e1'; clear Hr. gfacts.
+  bstep H r2 Hag. destruct r2 as [[s2 ar] dw0]. bstep H r3 Hact. destruct r3 as [s3 vr]. bstep H g Hg.
+  (* h is the head of the queue, hence queued *)
+  pose proof (wf_q _ _ _ Hwf) as [Qseg Qtail Qsize Qnd].
+  assert (Hin : In h lq).
+  { destruct lq as [|x t]; [cbn in Qseg; congruence|]. apply seg_head in Qseg. left. congruence. }
+  destruct (wf_st _ _ _ Hwf h e He) as [Sa [Sq Su]]. pose proof (proj1 Sq Hin) as Hq.
+  assert (Hnla : ~ In h la). { intros Hx. apply Sa in Hx. rewrite Hq in Hx. discriminate. }
+  destruct (ll_remove_wf false h e s s1 e1 lq e Hrm (wf_q _ _ _ Hwf) Hin He eq_refl eq_refl)
+    as [l1 [l2 [El [Hwq1 [Ee1 [Hg1 [Hot1 [Hlo1 [Hco1 Hsum1]]]]]]]]].
+  assert (Eg : forall (T : Type) (X : st -> T), X (w_vals (vals s1) (w_act (act s1) (w_que (que s1) s))) = X s1) by (intros; rewrite <- Hlo1; auto).
+  (* aggregation renew of a queued validator *)
+  assert (Eag0 : get_agg s1 h = get_agg s h) by (unfold get_agg; rewrite <- (Eg _ aggs); reflexivity).
+  unfold aggs_renew, agg_renew in Hag. rewrite Eag0 in Hag. set (ag := get_agg s h) in *.
+  bstep Hag r0 Hr0. destruct r0 as [a' ar0]. bstep Hr0 p1 Hp1. destruct p1 as [lv lw]. bstep Hr0 p2 Hp2. destruct p2 as [lv2 lw2].
+  inversion Hr0; subst a' ar0; clear Hr0. inversion Hag; subst s2 ar dw0; clear Hag.
+  apply ws_add_ok in Hp1. apply ws_sub_ok in Hp2. cbn [fst snd] in Hp1, Hp2.
+  destruct Hp1 as [Elv Elw]. destruct Hp2 as [Elv2 [Elw2 [Lev Lew]]].
+  assert (Hnact : forall y, getv s h = Some y -> v_status y <> StatusActive) by (intros y Hy; assert (y = e) by congruence; subst; rewrite Hq; discriminate).
+  pose proof (HA h Hnact) as Z1. destruct (j_idle _ H2 h Hnact) as [Z2 [Z3 Z4]]. fold ag in Z1, Z2, Z3, Z4.
+  destruct (j_q _ H2 h e He Hq) as [Q1 [Q2 [Q3 [Q4 Q5]]]]. fold ag in Q3, Q4.
+  set (a' := mkA lv2 lw2 0 0 0 0) in *. set (s2 := set_agg h a' s1) in *.
+  (* activation of the record *)
+  unfold svc_activate in Hact. bstep Hact u3 G3. bstep Hact w Hw. bstep Hact s3' Hadd. inversion Hact; subst s3' vr; clear Hact.
+  cbn [r_inc_v r_inc_w r_dec_v r_dec_w] in *. gfacts.
+  assert (Ce1 : core e1 = core e) by (subst e1; reflexivity).
+  destruct (core_eq _ _ Ce1) as [Cs [Cc [Cw [Cl [Cp [Cq Cx]]]]]].
+  set (mul := if a_ev ag <? a_pv ag then MultiplierWithDelegations else Multiplier) in *.
+  set (lwv := calc_weight (v_queued e1) mul) in *.
+  set (v1 := set_start b (set_status StatusActive (set_amounts (v_queued e1) (v_punlock e1) 0 (v_cooldown e1) (v_withdrawable e1) w e1))) in *.
+  (* the active list gets h appended *)
+  assert (Hwa2 : wf_list s2 (get_ls true s2) la).
+  { change (get_ls true s2) with (get_ls (negb false) s1). rewrite Hot1. cbn [negb get_ls].
+    destruct (wf_a _ _ _ Hwf) as [A1 A2 A3 A4]. constructor; auto.
+    eapply seg_frame; [exact A1|]. intros x Hx y Hy.
+    assert (Hne : x <> h) by (intros ->; contradiction).
+    assert (Hnq : ~ In x lq). { intros Hxq. destruct (wf_st _ _ _ Hwf x y Hy) as [[T1 _] [[T2 _] _]]. rewrite (T1 Hx) in T2. specialize (T2 Hxq). discriminate. }
+    destruct (proj2 (Hco1 x Hne) y Hy) as [y' [Hy' [_ Hsame]]]. rewrite (Hsame Hnq) in Hy'. exists y. auto. }
+  assert (Hnx : v_next v1 = None) by (subst e1; reflexivity).
+  destruct (ll_add_wf true h v1 s2 s3 la Hadd Hwa2 Hnla Hnx) as [Hwa3 [Hg3 [Hot3 [Hlo3 [Hco3 Hsum3]]]]].
+  assert (Eg3 : forall (T : Type) (X : st -> T), X (w_vals (vals s3) (w_act (act s3) (w_que (que s3) s2))) = X s3) by (intros; rewrite <- Hlo3; auto).
+  (* records: every x <> h keeps its core from s to s3, and is untouched when outside the list being edited *)
+  assert (Hrec : forall x y, x <> h -> getv s x = Some y ->
+            exists y3, getv s3 x = Some y3 /\ core y3 = core y /\ (~ In x la -> ~ In x lq -> y3 = y) /\
+                       (In x la -> forall y1, getv s1 x = Some y1 -> y1 = y)).
+  { intros x y Hne Hy. destruct (proj2 (Hco1 x Hne) y Hy) as [y1 [Hy1 [Ec1 Hs1]]].
+    destruct (proj2 (Hco3 x Hne) y1 Hy1) as [y3 [Hy3 [Ec3 Hs3]]]. exists y3. split; auto. split; [congruence|]. split.
+    - intros N1 N2. rewrite (Hs3 N1). apply Hs1; auto.
+    - intros Hx z Hz. assert (z = y1) by congruence. subst z. apply Hs1. intros Hxq.
+      destruct (wf_st _ _ _ Hwf x y Hy) as [[T1 _] [[T2 _] _]]. rewrite (T1 Hx) in T2. specialize (T2 Hxq). discriminate. }
+  assert (Hnone : forall x, x <> h -> getv s x = None -> getv s3 x = None).
+  { intros x Hne Hn. apply (proj1 (Hco3 x Hne)). apply (proj1 (Hco1 x Hne)). exact Hn. }
+  (* global counters *)
+  destruct (renewal_add_ok _ _ _ Hg) as [B1 [B2 [B3 [B4 B5]]]]. cbn [r_inc_v r_inc_w r_dec_v r_dec_w r_qdec] in B1, B2, B3, B4, B5.
+  unfold apply_renewal in H. bstep H p3 Hp3. bstep H p4 Hp4. destruct p4 as [nlv nlw]. bstep H sq Hsq.
+  apply ws_add_ok in Hp3. apply ws_sub_ok in Hp4. cbn [fst snd] in Hp3, Hp4. destruct Hp3 as [P1 P2]. destruct Hp4 as [P3 [P4 [P5 P6]]].
+  unfold remove_queued in Hsq. bstep Hsq q Hq'. inversion Hsq; subst sq; clear Hsq.
+  unfold add_withdrawable in H. bstep H wdn Hwd. inversion H; subst s'; clear H. gfacts.
+  cbn [g_lv g_lw g_q g_wd g_cd w_glob] in *.
+  (* projections of s3 *)
+  assert (P3s : aggs s3 = upd (aggs s) h a' /\ dels s3 = dels s /\ exits s3 = exits s /\ blk s3 = blk s /\ mbp s3 = mbp s /\
+                g_lv s3 = g_lv s /\ g_lw s3 = g_lw s /\ g_q s3 = g_q s /\ g_wd s3 = g_wd s /\ g_cd s3 = g_cd s /\
+                eff s3 = eff s /\ bal s3 = bal s /\ del_ctr s3 = del_ctr s /\
+                rh s3 = rh s /\ rt s3 = rt s /\ rprev s3 = rprev s /\ rnext s3 = rnext s).
+  { rewrite <- (Eg3 _ aggs), <- (Eg3 _ dels), <- (Eg3 _ exits), <- (Eg3 _ blk), <- (Eg3 _ mbp), <- (Eg3 _ g_lv), <- (Eg3 _ g_lw),
+      <- (Eg3 _ g_q), <- (Eg3 _ g_wd), <- (Eg3 _ g_cd), <- (Eg3 _ eff), <- (Eg3 _ bal), <- (Eg3 _ del_ctr),
+      <- (Eg3 _ rh), <- (Eg3 _ rt), <- (Eg3 _ rprev), <- (Eg3 _ rnext). unfold s2. cbn.
+    rewrite <- (Eg _ aggs), <- (Eg _ dels), <- (Eg _ exits), <- (Eg _ blk), <- (Eg _ mbp), <- (Eg _ g_lv), <- (Eg _ g_lw),
+      <- (Eg _ g_q), <- (Eg _ g_wd), <- (Eg _ g_cd), <- (Eg _ eff), <- (Eg _ bal), <- (Eg _ del_ctr),
+      <- (Eg _ rh), <- (Eg _ rt), <- (Eg _ rprev), <- (Eg _ rnext). cbn. repeat split. }
+  destruct P3s as [X1 [X2 [X3 [X4 [X5 [X6 [X7 [X8 [X9 [X10 [X11 [X12 [X13 [X14 [X15 [X16 X17]]]]]]]]]]]]]]]].
+  rewrite X6, X7, X8, X9 in *.
+  (* sums *)
+  pose proof (Hsum1 v_locked core_fun_locked) as S1. pose proof (Hsum1 v_queued core_fun_queued) as S2.
+  pose proof (Hsum1 v_cooldown core_fun_cooldown) as S3. pose proof (Hsum1 v_withdrawable core_fun_withdrawable) as S4.
+  pose proof (Hsum1 v_weight core_fun_weight) as S5.
+  assert (Hg1' : getv s2 h = Some e1) by exact Hg1.
+  pose proof (Hsum3 v_locked core_fun_locked) as T1. pose proof (Hsum3 v_queued core_fun_queued) as T2.
+  pose proof (Hsum3 v_cooldown core_fun_cooldown) as T3. pose proof (Hsum3 v_withdrawable core_fun_withdrawable) as T4.
+  pose proof (Hsum3 v_weight core_fun_weight) as T5. rewrite Hg1' in T1, T2, T3, T4, T5.
+  change (vals s2) with (vals s1) in T1, T2, T3, T4, T5.
+  cbn [v1 v_locked v_queued v_cooldown v_withdrawable v_weight set_start set_status set_amounts] in T1, T2, T3, T4, T5.
+  assert (Gl1 : sumf a_lv (upd (aggs s) h a') + a_lv ag = sumf a_lv (aggs s) + lv2).
+  { pose proof (sum_set_agg a_lv h a' s eq_refl) as A. cbn in A. fold ag in A. exact A. }
+  assert (Gl2 : sumf a_pv (upd (aggs s) h a') + a_pv ag = sumf a_pv (aggs s)).
+  { pose proof (sum_set_agg a_pv h a' s eq_refl) as A. cbn in A. fold ag in A. lia. }
+  pose proof (j_w0 _ H2 h e He) as W0. rewrite Hq in W0. specialize (W0 ltac:(discriminate)).
+  set (sf := w_glob _ _ _ _ _ (w_glob _ _ _ _ _ (w_glob _ _ _ _ _ s3))).
+  assert (Gvf : forall x, getv sf x = getv s3 x) by reflexivity.
+  exists h, (l1 ++ l2). split; [|split; [auto|split; [auto|split; [unfold sf; cbn; auto|split; [unfold sf; cbn; auto|]]]]].
+  - constructor.
+    + (* lists *)
+      apply (WF_same_vals s3); try reflexivity. constructor.
+      * exact Hwa3.
+      * change (que s3) with (get_ls (negb true) s3). rewrite Hot3. cbn [negb get_ls]. change (que s2) with (que s1).
+        destruct Hwq1 as [A1 A2 A3 A4]. cbn [get_ls] in *. constructor; auto.
+        eapply seg_frame; [exact A1|]. intros x Hx y1 Hy1.
+        assert (Hne : x <> h). { intros ->. rewrite El in Qnd. apply NoDup_remove_2 in Qnd. contradiction. }
+        assert (Hxq : In x lq). { rewrite El. apply in_app_iff in Hx as [Hx|Hx]; apply in_or_app; [left|right; right]; auto. }
+        assert (Hnla' : ~ In x la).
+        { intros Hxa. destruct (seg_in_get _ _ _ _ _ _ (wl_seg _ _ _ (wf_a _ _ _ Hwf)) Hxa) as [y Hy].
+          destruct (wf_st _ _ _ Hwf x y Hy) as [[T1' _] [[T2' _] _]]. rewrite (T1' Hxa) in T2'. specialize (T2' Hxq). discriminate. }
+        change (getv s1 x = Some y1) with (getv s2 x = Some y1) in Hy1.
+        destruct (proj2 (Hco3 x Hne) y1 Hy1) as [y3 [Hy3 [_ Hs3]]]. rewrite (Hs3 Hnla') in Hy3. exists y1. auto.
+      * intros x y3 Hy3. destruct (N.eq_dec x h) as [->|Hne].
+        -- rewrite Hg3 in Hy3. inversion Hy3; subst y3. cbn [v_status v_prev v_next set_prev v1 set_start set_status set_amounts].
+           split; [split; auto; intros _; apply in_or_app; right; left; auto|].
+           split; [split; [intros Hx; rewrite El in Qnd; apply NoDup_remove_2 in Qnd; contradiction|discriminate]|].
+           intros Hx. exfalso. apply Hx, in_or_app. right; left; auto.
+        -- destruct (getv s x) as [y|] eqn:Ey; [|rewrite (Hnone x Hne Ey) in Hy3; discriminate].
+           destruct (Hrec x y Hne Ey) as [y3' [Hy3' [Ec [Hsame _]]]]. assert (y3' = y3) by congruence. subst y3'.
+           destruct (wf_st _ _ _ Hwf x y Ey) as [T1' [T2' T3']]. rewrite (core_status _ _ Ec).
+           assert (Ia : In x (la ++ [h]) <-> In x la) by (rewrite in_app_iff; cbn; intuition congruence).
+           assert (Iq : In x (l1 ++ l2) <-> In x lq) by (rewrite El, !in_app_iff; cbn; intuition congruence).
+           split; [rewrite Ia; auto|]. split; [rewrite Iq; auto|].
+           intros N1 N2. rewrite Ia in N1. rewrite Iq in N2. rewrite (Hsame N1 N2). auto.
+    + (* accounting *)
+      unfold sf. constructor; cbn; rewrite ?X1, ?X2, ?X10, ?X11, ?X12, ?X13 in *; try lia; auto.
+      rewrite I5. f_equal. lia.
+    + (* idle aggregations *)
+      intros x Hx. unfold get_agg, sf. cbn. rewrite X1, get_upd. destruct (h =? x) eqn:E.
+      * apply N.eqb_eq in E. subst x. exfalso. apply (Hx (set_prev (last_or None la) v1)); [rewrite Gvf; exact Hg3|reflexivity].
+      * apply N.eqb_neq in E. apply HA. intros y Hy. destruct (Hrec x y (fun e => E (eq_sym e)) Hy) as [y3 [Hy3 [Ec _]]].
+        rewrite <- (core_status _ _ Ec). apply (Hx y3). rewrite Gvf. exact Hy3.
+    + (* second group *)
+      apply (Inv2_activate s sf h e (set_prev (last_or None la) v1) a'); auto; try (unfold sf; cbn; auto; fail).
+      * intros x Hne. rewrite Gvf. split; [apply Hnone; auto|]. intros y Hy. destruct (Hrec x y Hne Hy) as [y3 [Hy3 [Ec _]]]. eauto.
+      * cbn. congruence.
+      * cbn. congruence.
+      * cbn. congruence.
+      * cbn. congruence.
+      * cbn [v_weight v_locked set_prev v1 set_start set_status set_amounts a_lw a']. unfold v_multiplier.
+        cbn [v_weight v_locked set_prev v1 set_start set_status set_amounts].
+        assert (Ew : w = calc_weight (v_queued e1) mul + a_pw ag) by lia.
+        assert (Elw2' : lw2 = a_pw ag) by lia. rewrite Ew, Elw2'. unfold mul, Multiplier, MultiplierWithDelegations.
+        rewrite Z3. destruct (0 <? a_pv ag) eqn:Epv.
+        -- apply N.ltb_lt in Epv. rewrite calc_200. destruct (2 * v_queued e1 + a_pw ag =? v_queued e1) eqn:E2; [apply N.eqb_eq in E2; lia|].
+           rewrite calc_200. reflexivity.
+        -- apply N.ltb_ge in Epv. assert (Zp : a_pv ag = 0) by lia.
+           assert (Zw : a_pw ag = 0). { rewrite Q4. apply (sumf_zero (dp_v h) (dp_w h)); [apply dp_zero|]. rewrite <- Q3. exact Zp. }
+           rewrite Zw, (calc_100 (v_queued e1)), N.add_0_r, N.eqb_refl, calc_100. reflexivity.
+      * unfold sf. cbn. cbn [v_weight set_prev v1 set_start set_status set_amounts]. lia.
+      * unfold sf. cbn [vals w_glob]. cbn [v_weight set_prev v1 set_start set_status set_amounts]. lia.
+  - intros x y Hne Hy. destruct (Hrec x y Hne Hy) as [y3 [Hy3 [Ec _]]]. exists y3. rewrite Gvf. auto.
+Qed.
